@@ -1331,6 +1331,13 @@ def run(ctx: Ctx, rep: Report, tier: str) -> None:
     run_fixture("memo", lambda c, r: memo_rules(c, r, rid="R05.1"), expect_violation="lru_cache")
     rep.rule("R05.1")
     rep.floor(1, "memoised methods (functools cache or instance memo)") if n else rep.note("R05.1 no memoised method in the package (nothing can go stale)")
+    # R05.19 "no stale results": the prefixes are computed from the object alone - no store outside the objects (a
+    # module-level cache shared by "equal" wildcards) feeds them (C17 R17.2)
+    from .c17 import r17_2
+
+    sub172 = Report("C05")
+    r17_2(ctx, sub172)
+    rep.absorb(sub172, "R05.19")
     r05_2(ctx, rep)
     r05_3(ctx, rep)
     r05_4(ctx, rep)
